@@ -18,7 +18,7 @@ import (
 const (
 	c07FootprintSlack = 8
 	c07TickSlack      = 16
-	c07HardCap   = 6000
+	c07HardCap   = 40000
 )
 
 var c07Corpus = []string{
@@ -67,6 +67,12 @@ func init() {
 		`function scan(last) { foreach last in [7, 8, 9] { if (last == 8) { return last; } } return 0; } q = scan(1); last = q + A; hv(last); return last;`,
 		`foreach total in 1..3 { hv(total); if (total == A) { return total; } } total = 50; hv(total); return total;`,
 		`function f(n) { local acc; acc = 10 / n; return acc; } acc = 5; n = 2; r = f(B); hv(acc, n, r); return acc + n;`,
+		// recursion close to the engine's call-depth limit (A is 0..3): a
+		// counter that is not put back on some exit shows up in the next run
+		`function deep(n) { if (n < 1) { hv(n); return 0; } return 1 + deep(n - 1); } d = deep(300 * A + 90); return d;`,
+		`function down(n) { if (n < 1) { return 10 / B; } return down(n - 1); } function top() { foreach q in [1] { return down(280 * A + 60); } return 0; } return top();`,
+		// a host map nested close to the engine's nesting limit
+		`return len(string(M)) + len(S);`,
 		`hv("$S", $S, "$A", "S"); x = $A + A; if ($S == S) { hv("$x", x); } return "$S";`,
 		`function outer(v) { foreach a in [1, 2] { foreach b in [3, 4] { if (b == 4 && a == v) { return [a, b]; } } } return 0; } r = outer(A); foreach c in "xyz" { if (c == "y") { return c; } } return r;`,
 		`n = 0; foreach ch in "abcdef" { n++; if (ch == "c") { return n; } } return -1;`,
@@ -113,7 +119,22 @@ var c07Objs = []interface{}{
 	&Obj{A: 1, B: 0, C: 0, S: "", Items: []int{1}},
 	map[string]interface{}{"A": 3, "B": 2, "C": -1, "S": "héllo", "Items": []interface{}{1, 2, 3, 4, 5}},
 	c07Anon1(), c07Anon2(), c07Local1(), c07Local2(),
+	map[string]interface{}{"A": 3, "B": 1, "S": "x", "M": deepMap(990)},
+	map[string]interface{}{"A": 2, "B": 0, "S": "yy", "M": deepMap(1005)},
+	map[string]interface{}{"A": 1, "B": 1, "S": "z", "M": map[string]string{"unconvertible": "value kind"}},
 }
+
+// deepMap returns a map nested n levels deep.
+func deepMap(n int) map[string]interface{} {
+	top := map[string]interface{}{"leaf": 0}
+	for i := 0; i < n; i++ {
+		top = map[string]interface{}{"k": top}
+	}
+	return top
+}
+
+// (placeholder to keep the literal above terminated)
+var _ = []interface{}{}
 
 // Draw layout, mode 1 (crash-point enumeration):
 //   [1, script, object, opt, fault kind, k]   fault kind 0 = cancel at tick k, 1 = host panic at call k+1
@@ -121,6 +142,10 @@ func (p *c07) Enumerate(tier string) [][]int32 {
 	var out [][]int32
 	for si, text := range c07Corpus {
 		for oi, obj := range c07Objs {
+			// the objects with very deep maps only meet the script that reads them
+			if oi >= len(c07Objs)-3 && !strings.Contains(text, "string(M)") {
+				continue
+			}
 			for opt := 0; opt < 2; opt++ {
 				if tier == "quick" && opt == 1 && oi%2 == 1 {
 					continue
@@ -137,7 +162,15 @@ func (p *c07) Enumerate(tier string) [][]int32 {
 				}
 				under(ctx, func() { doExecute(e, obj) })
 				n := int(ctx.Ticks)
+				// every tick of ordinary runs; long runs (deep recursion) are
+				// sampled beyond the first 400 ticks
 				for k := 0; k <= n+1; k++ {
+					if n > 1500 && k%(n/40+1) != 0 {
+						continue
+					}
+					if k > 400 && n > 800 && k%(n/100+1) != 0 {
+						continue
+					}
 					out = append(out, []int32{1, int32(si), int32(oi), int32(opt), 0, int32(k)})
 				}
 				for k := 0; k < h.Calls; k++ {
@@ -160,7 +193,7 @@ func (p *c07) RandomRuns(tier string) int {
 	if tier == "thorough" {
 		return 2500000
 	}
-	return 60000
+	return 50000
 }
 
 // c07Run is the plan of one run of a history.
@@ -255,7 +288,10 @@ func (s *evalSide) exec(r *c07Run) (res Result) {
 
 func (p *c07) Run(c *verifsim.Chooser, st *Stats, render bool) *Outcome {
 	o := &Outcome{}
-	mode := []int{0, 1, 2, 0, 0, 0, 0, 0}[c.Intn(8)]
+	mode := c.Intn(32) // 0 random history (29 in 32), 1 corpus crash point, 2 long history
+	if mode > 2 {
+		mode = 0
+	}
 	var text string
 	var globals, scoped []string
 	var runs []*c07Run
@@ -325,6 +361,8 @@ func (p *c07) Run(c *verifsim.Chooser, st *Stats, render bool) *Outcome {
 	}
 	var fp0 int64
 	fpSet := false
+	shared := &Obj{}
+	reusePtr := mode == 0 && c.Intn(4) == 1
 	switch initKind {
 	case 0:
 		L.e.SetVariable("g0", &object.Integer{Value: 0})
@@ -349,6 +387,12 @@ func (p *c07) Run(c *verifsim.Chooser, st *Stats, render bool) *Outcome {
 		} else {
 			r = &c07Run{}
 			r.Obj, r.ObjDesc = genObject(c)
+			if reusePtr {
+				// the host decodes every record into the same variable and
+				// passes its address: same pointer, new contents
+				*shared = Obj{A: c.Intn(4), B: c.Intn(3), C: c.Intn(3) - 1, S: []string{"ab", "hall", ""}[c.Intn(3)], Items: []int{1, 2, 3}[:c.Intn(4)]}
+				r.Obj, r.ObjDesc = shared, fmt.Sprintf("(same pointer) %+v", *shared)
+			}
 			bits := c.Intn(16)
 			r.Maybe = []bool{bits&1 != 0, bits&2 != 0, bits&4 != 0, bits&8 != 0}
 			if i < nruns-1 {
